@@ -60,6 +60,10 @@ PATH_FINDING = {
     "incdec-elem1": "C04-unsigned-element-read-narrowed", "lit1": "C04-unsigned-element-read-narrowed",
     "static": "C04-static-unsigned-negative", "assign-from-elemN": "C04-bare-multidim-value",
     "return-from-elemN": "C04-bare-multidim-value",
+    "assign-hint:bool": "C04-ternary-assign-bool-branch", "decl-multi:bool": "C04-ternary-assign-bool-branch",
+    "decl-typedef-ternary": "C04-typedef-ternary-init-unchecked", "static-assign": "C04-static-unsigned-flag-lost",
+    "elem1-global": "C04-global-array-unsigned-flag-lost", "arrlit-assign1": "C04-array-literal-assign-unchecked",
+    "arrlit-assignN": "C04-array-literal-assign-unchecked", "arr-copy": "C04-array-copy-unchecked",
 }
 ONE_D = ("elem1", "elem1-compound", "lit1", "global-arr", "incdec-elem1")
 
@@ -114,9 +118,20 @@ def mech_run(queries):
     return out
 
 
-def differential(impl, sexprs, fuel=4000, model_timeout=1800):
-    ms = model_run(sexprs, fuel, model_timeout)
+def differential(impl, sexprs, fuel=4000, model_timeout=1800, rewrite=None):
+    """rewrite: {index: function(source text) -> source text} applied to the text printed by the reference printer before it is
+    given to main (the typedef variants of the matrix)"""
+    uniq = list(dict.fromkeys(sexprs))           # (a typedef variant repeats the S-expression of its base cell)
+    um = dict(zip(uniq, model_run(uniq, fuel, model_timeout)))
+    ms = [dict(um[x]) for x in sexprs]
+    if rewrite:
+        for k, fn in rewrite.items():
+            ms[k] = dict(ms[k], src=fn(ms[k]["src"]))
     idx = [k for k, m in enumerate(ms) if m["expect"] not in ("undef", "nofuel")]
+    return run_impl(impl, ms, idx)
+
+
+def run_impl(impl, ms, idx):
     irs = langrun.impl_run(impl, [ms[k]["src"] for k in idx])
     res = [{"model": m, "impl": None} for m in ms]
     bad = []
@@ -132,10 +147,19 @@ def differential(impl, sexprs, fuel=4000, model_timeout=1800):
     return res, bad
 
 
+def raw_differential(impl, cases, spec):
+    """cells outside CbCore: the expected transcript is the Spec conversion of the one store"""
+    ms = []
+    for (src, meta), sp in zip(cases, spec):
+        out, failed = predicted(sp, meta["extra"])
+        ms.append({"src": src, "expect": "range" if failed else "finished", "out": out})
+    return run_impl(impl, ms, list(range(len(ms))))
+
+
 def predicted(answer, extra):
-    """(stdout, failed) a program of the matrix shows when its store behaves as `answer` says"""
+    """(stdout, failed) a program of the matrix shows when its store behaves as `answer` says ("=" in extra: the stored value again)"""
     if answer.startswith("val "):
-        return "".join("%s\n" % x for x in [answer[4:]] + [str(e) for e in extra]), False
+        return "".join("%s\n" % x for x in [answer[4:]] + [answer[4:] if e == "=" else str(e) for e in extra]), False
     return "", True
 
 
@@ -186,44 +210,51 @@ def run(rep):
     samples = []
     n_eval = 0
 
-    # (2) the matrix
+    # (2) the matrix: CbCore cells (run on Ref too), their typedef variants, and the cells outside CbCore
     passes = 1 if quick else 6
     matrix_cells = 0
     defect_cells = 0
     cells_by_path = collections.Counter()
-    for ps in range(passes):
-        cases = gen_c04.matrix(rng_for(seed, "c04-matrix", ps))
-        sx = [c[0] for c in cases]
-        res, bad = differential(impl, sx)
+    group_cells = collections.Counter()
+
+    def cell_payload(s, meta, m, i, mech_k, why):
+        d = {"cell": meta, "program": m["src"], "expected_outcome": m["expect"], "expected_stdout": m["out"], "mech": mech_k,
+             "impl_rc": i["rc"], "impl_stdout": i["out"], "impl_stderr": i["err"][-400:], "why": why}
+        if meta.get("raw"):
+            d["raw_program"] = m["src"]
+        else:
+            d["sexpr"] = s
+        return d
+
+    def judge(cases, res, bad, mech, spec, ps):
+        nonlocal matrix_cells, defect_cells, nontriv
         badmap = dict(bad)
-        mech = mech_run([c[1]["query"] for c in cases])
-        spec = mech_run([spec_query(c[1]["query"]) for c in cases])
-        n_eval += len(cases)
         for k, (s, meta) in enumerate(cases):
             m, i = res[k]["model"], res[k]["impl"]
             outcomes[m["expect"]] += 1
+            group = "raw" if meta.get("raw") else ("typedef" if meta.get("typedef") else "core")
             hist["matrix:" + meta["path"].split(":")[0]] += 1
             cells_by_path[meta["path"]] += 1
-            if s not in distinct and m["expect"] not in ("undef", "nofuel"):
-                distinct.add(s)
+            key = (s, meta.get("typedef"))
+            if key not in distinct and m["expect"] not in ("undef", "nofuel"):
+                distinct.add(key)
                 nontriv += 1            # every matrix program prints its target cell or ends in an error
             if i is None:
                 continue
             matrix_cells += 1
-            if ps == 0 and k % 397 == 5 and len(samples) < 6:
+            group_cells[group] += 1
+            if ps == 0 and k % 397 == 5 and len(samples) < 9:
                 samples.append({"cell": {x: meta[x] for x in ("path", "type", "kind", "value")}, "program": m["src"],
                                 "reference": [m["expect"], m["out"]], "mech": mech[k], "main": [i["rc"], i["out"]]})
             # the one-store prediction of Spec must be what whole-program Ref shows (generator sanity)
-            if not agrees({"rc": 0 if m["expect"] == "finished" else 1, "out": m["out"],
-                           "err": "Value out of range for type" if m["expect"] == "range" else ""}, spec[k], meta["extra"]):
+            if not meta.get("raw") and not agrees({"rc": 0 if m["expect"] == "finished" else 1, "out": m["out"],
+                                                   "err": "Value out of range for type" if m["expect"] == "range" else ""}, spec[k], meta["extra"]):
                 violations.append(("generator", {"sexpr": s, "cell": meta, "spec": spec[k], "reference": [m["expect"], m["out"]]},
                                    "internal: Spec prediction for the cell and the reference run of its program differ", True))
                 continue
             if mech[k] == spec[k]:
                 if k in badmap:
-                    violations.append(("matrix", {"sexpr": s, "cell": meta, "program": m["src"], "expected_outcome": m["expect"],
-                                                  "expected_stdout": m["out"], "mech": mech[k], "impl_rc": i["rc"], "impl_stdout": i["out"],
-                                                  "impl_stderr": i["err"][-400:], "why": badmap[k]},
+                    violations.append(("matrix", cell_payload(s, meta, m, i, mech[k], badmap[k]),
                                        "store path %s, type %s, value %d (%s): main disagrees with the reference semantics (%s)" % (
                                            meta["path"], meta["type"], meta["value"], meta["kind"], badmap[k]), False))
             else:
@@ -234,20 +265,32 @@ def run(rep):
                 elif agrees(i, mech[k], meta["extra"]):
                     # the model of today's code (with the table just re-extracted from the C++) and main agree with each
                     # other and not with the property, on a path for which no defect is recorded
-                    violations.append(("matrix", {"sexpr": s, "cell": meta, "program": m["src"], "expected_outcome": m["expect"],
-                                                  "expected_stdout": m["out"], "mech": mech[k], "impl_rc": i["rc"], "impl_stdout": i["out"],
-                                                  "impl_stderr": i["err"][-400:], "why": badmap.get(k)},
+                    violations.append(("matrix", cell_payload(s, meta, m, i, mech[k], badmap.get(k)),
                                        "store path %s, type %s, value %d (%s): main (and the model regenerated from the current C++) give `%s`, "
                                        "the property demands `%s`" % (meta["path"], meta["type"], meta["value"], meta["kind"], mech[k], spec[k]), False))
                 elif k not in badmap:
                     fixed_cells[fid or meta["path"]] += 1
                 else:
-                    violations.append(("matrix", {"sexpr": s, "cell": meta, "program": m["src"], "expected_outcome": m["expect"],
-                                                  "expected_stdout": m["out"], "mech": mech[k], "impl_rc": i["rc"], "impl_stdout": i["out"],
-                                                  "impl_stderr": i["err"][-400:], "why": badmap[k]},
+                    violations.append(("matrix", cell_payload(s, meta, m, i, mech[k], badmap[k]),
                                        "store path %s, type %s, value %d (%s): main agrees neither with the reference semantics nor with the model "
                                        "of today's code (%s; model says %s)" % (meta["path"], meta["type"], meta["value"], meta["kind"], badmap[k], mech[k]),
                                        False))
+
+    for ps in range(passes):
+        cases = gen_c04.matrix(rng_for(seed, "c04-matrix", ps))
+        sx = [c[0] for c in cases]
+        rewrite = {k: (lambda src, t=meta["type"]: gen_c04.typedef_source(src, t)) for k, (_, meta) in enumerate(cases) if meta.get("typedef")}
+        res, bad = differential(impl, sx, rewrite=rewrite)
+        mech = mech_run([c[1]["query"] for c in cases])
+        spec = mech_run([spec_query(c[1]["query"]) for c in cases])
+        n_eval += len(cases)
+        judge(cases, res, bad, mech, spec, ps)
+        raw = gen_c04.raw_matrix(rng_for(seed, "c04-raw", ps))
+        mech = mech_run([c[1]["query"] for c in raw])
+        spec = mech_run([spec_query(c[1]["query"]) for c in raw])
+        res, bad = raw_differential(impl, raw, spec)
+        n_eval += len(raw)
+        judge(raw, res, bad, mech, spec, ps)
 
     # (3) random programs mixing the store paths
     n_mixed = 2500 if quick else 30000
@@ -260,9 +303,14 @@ def run(rep):
     for k in range(n_mixed):
         progs.append(gen_c04.mixed_program(rng_for(seed, "c04-mixed", k))); origin.append("mixed")
     feats = collections.Counter()
+    ternary_assign = collections.Counter()
     for k in range(n_core):
-        g = gen_core.Gen(rng_for(seed, "c04-core", k), gen_core.Opts(max_stmts=6, funcs=2))
-        progs.append(g.program()); origin.append("core")
+        # finding C04-ternary-assign-bool-branch is avoided only where it bites: gen_core's blanket `+ 0` around every top-level ?: of an
+        # assignment is switched off, gen_c04.narrow_top_ternary wraps only a ?: with a bool-inferred, not 0/1-valued branch
+        g = gen_core.Gen(rng_for(seed, "c04-core", k), gen_core.Opts(max_stmts=6, funcs=2, avoid_assign_top_ternary=False))
+        sxp, kept, wrapped = gen_c04.narrow_top_ternary(g.program())
+        ternary_assign["kept"] += kept; ternary_assign["wrapped"] += wrapped
+        progs.append(sxp); origin.append("core")
         feats.update(g.feats)
     res, bad = [], []
     CH = 4000
@@ -277,9 +325,9 @@ def run(rep):
         outcomes[r["model"]["expect"]] += 1
         if r["model"]["expect"] == "range":
             range_errors += 1
-        if p in distinct or r["model"]["expect"] in ("undef", "nofuel"):
+        if (p, None) in distinct or r["model"]["expect"] in ("undef", "nofuel"):
             continue
-        distinct.add(p)
+        distinct.add((p, None))
         if r["model"]["out"].strip() or r["model"]["expect"] != "finished":
             nontriv += 1
     if res:
@@ -362,16 +410,21 @@ def run(rep):
                 "and Ref. distinct = distinct ASTs that are well-formed (Ref neither Undef nor out of fuel); non-trivial = prints something or "
                 "ends in a runtime error",
         "exhaustive": True,
-        "exhaustive_scope": "the matrix %d types x %d store-path variants x %d value kinds (cells that cannot be expressed - value outside int64, "
-                            "no in-range start value - are skipped by construction); random programs are a sample" % (
-                                len(gen_c04.TYPES), len(gen_c04.PATHS), len(gen_c04.KINDS)),
-        "matrix_cells_run": matrix_cells, "matrix_passes": passes, "matrix_cells_where_mech_differs_from_spec": defect_cells,
+        "exhaustive_scope": "the matrix %d types x (%d CbCore store-path variants, each again with the type written through a typedef alias for "
+                            "the 5 signed types, + %d variants outside CbCore) x %d value kinds (cells that cannot be expressed - value outside "
+                            "int64, no in-range start value - are skipped by construction); random programs are a sample" % (
+                                len(gen_c04.TYPES), len(gen_c04.PATHS), len(gen_c04.RAW_PATHS), len(gen_c04.KINDS)),
+        "matrix_cells_run": matrix_cells, "matrix_cells_by_group": dict(group_cells), "matrix_passes": passes, "matrix_cells_where_mech_differs_from_spec": defect_cells,
         "cells_per_path": dict(cells_by_path), "known_finding_cells": dict(known_cells), "fixed_cells": dict(fixed_cells),
         "input_distribution": dict(hist), "reference_outcomes": dict(outcomes),
         "random_programs_ending_in_range_error": range_errors, "random_programs_with_other_error_not_compared": not_compared,
         "features": dict(feats.most_common(25)), "findings_replayed": replayed,
+        "random_ternary_assignments": {"gen_core_kept": ternary_assign["kept"], "gen_core_wrapped_bool_branch": ternary_assign["wrapped"],
+                                       "mixed": sum(p.count("(asg (v ") and p.count("(cond") for p, o in zip(progs, origin) if o == "mixed")},
         "discarded_not_well_formed": outcomes.get("undef", 0) + outcomes.get("nofuel", 0),
         "samples": samples, "disagreements": len(violations),
+        "disagreements_by_path": dict(collections.Counter(
+            (v[1].get("cell", {}).get("path") if isinstance(v[1].get("cell"), dict) else v[1].get("origin", v[0])) for v in violations)),
     })
     rep.assumptions += [
         "programs on which Ref reports Undef (signed 64-bit overflow of an intermediate) are not well-formed and are discarded (counted)",
@@ -386,12 +439,17 @@ def replay(path):
     data = json.load(open(path))
     c = data["case"]
     impl = common.build_impl("plain")
-    if "sexpr" in c:
-        r, b = differential(impl, [c["sexpr"]])
+    cell = c.get("cell") if isinstance(c.get("cell"), dict) else None
+    if "sexpr" in c or "raw_program" in c:
+        if "sexpr" in c:
+            rewrite = {0: (lambda src, t=cell["type"]: gen_c04.typedef_source(src, t))} if cell and cell.get("typedef") else None
+            r, b = differential(impl, [c["sexpr"]], rewrite=rewrite)
+        else:
+            r, b = raw_differential(impl, [(c["raw_program"], cell)], mech_run([spec_query(cell["query"])]))
         print(r[0]["model"]["src"])
         print("reference:", r[0]["model"]["expect"], repr(r[0]["model"]["out"]))
-        if isinstance(c.get("cell"), dict) and "query" in c["cell"]:
-            print("model of today's code:", mech_run([c["cell"]["query"]])[0], " demanded:", mech_run([spec_query(c["cell"]["query"])])[0])
+        if cell and "query" in cell:
+            print("model of today's code:", mech_run([cell["query"]])[0], " demanded:", mech_run([spec_query(cell["query"])])[0])
         if r[0]["impl"]:
             print("main:     ", r[0]["impl"]["rc"], repr(r[0]["impl"]["out"]), r[0]["impl"]["err"][-300:])
         return 1 if b else 0
